@@ -45,6 +45,13 @@ def run(ck):
     ck.mc("MCLinkHash", "C06_mc.cfg", workers=8, xmx="8g", timeout=1800)
     for m in MUTS:
         ck.mc_must_fail("MCLinkHash", "C06_asfound_%s.cfg" % m, workers=4, timeout=600)
+    # every table size in 1..INT_MAX and every resize request: an inductive invariant of the size / count arithmetic (Apalache) - the
+    # unbounded insertion probe always finds a free slot (count < size whenever a table is probed), also while a user resize fills
+    # its new table step by step; the resize that adopts the requested size (json-c as found, D06a) must break it
+    ck.prove("LinkHashInd", "CInit", "Init", "IndInv", 0)
+    ck.prove("LinkHashInd", "CInit", "IndInv", "IndInv", 1)
+    ck.prove("LinkHashInd", "CInit", "IndInv", "Safety", 0)
+    ck.prove("LinkHashInd", "CInitBad", "IndInv", "IndInv", 1, must_fail=True)
     exe = vlib.build("san", vlib.harness_sources(), "vh")
     # ---- G: edge cover of the LinkHash graph
     hists, r = vlib.tlc_export_edges("GLinkHash", "C06_g.cfg", timeout=1800, xmx="8g")
